@@ -54,6 +54,7 @@ def run(ctx, res):
     parts_id = outp[0]
     n_paths = 0
     kinds = {}
+    r5_ok, r5_bad = set(), set()
     for o in outs:
         d = o["decisions"]
         if d.get("is_some(tokens.get(cursor))") is not True:
@@ -128,8 +129,23 @@ def run(ctx, res):
                 res.add(Finding("C10.R3", fn, site + ":descent", "on this path a parsed tag is neither returned as the closer of an ancestor nor descended into: an opening tag that is "
                                 "not descended can never pair with its closing tag (well-formed elements stop being recognised)", loc=loc,
                                 detail={"decisions": {k: str(v) for k, v in d.items()}}))
+        # R5: whether an Element token is treated as a tag is decided by element_parser::parse alone - the decision that
+        # follows `the token is an Element` must be the parse result (a further condition in between makes well-formed tags text)
+        keys = list(d.keys())
+        vk = [i for i, k in enumerate(keys) if k.startswith("variant(") and "kind)" in k and str(d[k]).endswith("Element")]
+        if vk:
+            nxt = keys[vk[0] + 1] if vk[0] + 1 < len(keys) else None
+            if nxt is not None and (nxt.startswith("is_some(parse(") or nxt.startswith("is_some(element_parser::parse(")):
+                r5_ok.add(site)
+            else:
+                r5_bad.add(_short(nxt or "<none>"))
         if len(res.samples) < 8:
             res.samples.append({"path": label or "text-token", "token_placed": placed, "children_consumed": childs if recursed else None, "exit": o["exit"]})
+    for cond in sorted(r5_bad):
+        res.add(Finding("C10.R5", fn, "tag-iff-parsed:" + cond, "an Element token is subject to the condition `%s` before (or instead of) element_parser::parse: "
+                        "a well-formed tag can be kept as text" % cond, loc=loc))
+    if r5_ok and not r5_bad:
+        res.holds("C10.R5", fn, "tag-iff-parsed", "%d paths: the decision after `token is an Element` is the result of element_parser::parse" % len(r5_ok))
     res.extra["paths"] = n_paths
     res.floor("C10.R1", "loop-body paths with a fetched token", n_paths, 6)
     res.floor("C10.R1", "paths through the recursive branch", sum(1 for v in kinds.values() if v[1] is not None), 3)
